@@ -488,6 +488,15 @@ def runOpFrom (op : Op) : Nat → OpState → List (List Stream) → List (List 
 
 def runOp (op : Op) (hist : List (List Stream)) : List (List Stream) := runOpFrom op 0 {} hist
 
+/-- executable well-formedness of an evaluation order: ids are new, inputs were evaluated before -/
+def wfFromB : List Nat → List Node → Bool
+  | _, [] => true
+  | D, n :: ns => !D.contains n.id && n.ins.all (fun r => D.contains r.node) && wfFromB (n.id :: D) ns
+
+/-- a partitioned schedule: subgraphs run one after the other (handoffs = `Env` entries) -/
+def runScheduleB (t : Nat) (ext : List Stream) (sch : List (List Node)) (σ : States) : States × Env :=
+  sch.foldl (fun σe sg => sg.foldl (fun σe n => stepNode t ext n σe) σe) (σ, Env.empty)
+
 /-! ### shape perturbations (C22) -/
 
 /-- insert a pass-through stage in front of input `k` of node `target`:
